@@ -4,6 +4,7 @@ Not part of the proved core.
 -/
 import DefconModel.Util.SExp
 import DefconModel.ConvSave
+import DefconModel.Replace
 
 namespace DefconModel
 namespace Conv
@@ -149,8 +150,36 @@ def fullyLoaded (m : Mem) (c : Full) : Mem :=
   { m with layers := c.layers.map (fun l => ⟨l.name, loaded l.glyphs, l.info⟩), images := loaded c.images,
            data := loaded c.data }
 
+/-! ### the final replace (M-Replace): the UFO at the destination is blob 1, the new one blob 2, a partial
+arrival blob 3 -/
+
+def asKind? : SExp → Option Replace.Kind
+  | .atom "dir" => some .dir
+  | .atom "file" => some .file
+  | _ => none
+
+def asFault? : SExp → Option Replace.Fault
+  | .atom "none" => some .none
+  | .atom "aside-raises" => some .asideRaises
+  | .atom "movein-raises" => some .moveInRaises
+  | .atom "movein-torn" => some (.moveInTorn 3)
+  | .atom "movein-copied" => some .moveInCopied
+  | _ => none
+
+def encNode : Option Replace.Node → SExp
+  | none => .atom "nothing"
+  | some n => .list [.atom (match n.kind with | .dir => "dir" | .file => "file"),
+      .atom (if n.inside ≠ [] then "other" else if n.blob = 1 then "old" else if n.blob = 2 then "new" else "other")]
+
 def driverStep (s : DState) (line : SExp) : DState × SExp :=
   match line with
+  | .list [.atom "replace", old, new, fault] =>
+    match asOpt? asKind? old, asKind? new, asFault? fault with
+    | some old, some new, some f =>
+      let r := Replace.replace { dest := old.map (fun k => { kind := k, blob := 1 }), temp := some { kind := new, blob := 2 } } f
+      (s, .list [.atom (if r.raised then "raised" else "done"), encNode r.fs.dest,
+                 .atom (if r.fs.temp.isSome || r.fs.aside.isSome then "temp-left" else "clean")])
+    | _, _, _ => (s, .atom "bad-op")
   -- pure conversion functions
   | .list [.atom "findheader", t] =>
     match asText? t with
